@@ -113,3 +113,25 @@ def take_isolation_budget(names, per_finding=2):
       _isolated_budget[n] = _isolated_budget.get(n, 0) + 1
       ok = True
   return ok
+
+
+def addsub_multiplier_overflow(model):
+  """True if a quantized ADD/SUB of the (parsed) model makes LiteRT's Prepare
+  abort: add.cc/sub.cc compute twice_max_input_scale / (2^left_shift * output_scale)
+  and TFLITE_CHECK it to be < 1 (left_shift 20 for 8 bit, 15 for 16 bit). It
+  happens when the output range is thousands of times smaller than an input
+  range (e.g. x + (-x))."""
+  from vq import fb
+  ADD, SUB = fb.OP_CODE['ADD'], fb.OP_CODE['SUB']
+  for sg in model['subgraphs']:
+    for op in sg['ops']:
+      if op['code'] not in (ADD, SUB) or len(op['inputs']) != 2:
+        continue
+      ts = [sg['tensors'][t] for t in op['inputs'] + op['outputs'][:1]]
+      if any(t['scale'] is None for t in ts):
+        continue
+      shift = 15 if ts[2]['type'] == fb.TT.INT16 else 20
+      twice = 2.0 * max(ts[0]['scale'][0], ts[1]['scale'][0])
+      if twice / ((1 << shift) * ts[2]['scale'][0]) >= 1.0:
+        return True
+  return False
